@@ -239,14 +239,40 @@ def m_position(ctx):
     if not isinstance(it, Iter):
         return ctx.top_ret()
     run_closure_over(ctx, it, ctx.args[1], "pos")
-    v, _ = base_seq(ctx, it)
     idx = ctx.fresh("pos", I.usize_rng(), D.rng(0, I.max_len()))
-    if v is not None:
-        ln = len_sym(ctx, v)
-        if D.hi(S.ivof(ln)) == 0:
+    cnt = iter_count_bounds(ctx, it)
+    if cnt:
+        if any(S.entails(c.scale(-1)) for c in cnt):  # some bound says: at most 0 items
             return none()
-        return option(Scalar(idx), Delta({}, [Lin.var(idx).sub(S.term(ln)).addc(1)]))
+        # a found position is smaller than the number of items: pos + 1 <= count for every known bound
+        return option(Scalar(idx), Delta({}, [Lin.var(idx).addc(1).add(c) for c in cnt]))
     return option(Scalar(idx))
+
+
+def iter_count_bounds(ctx, it):
+    """Upper bounds on the number of items of an iterator, each as a Lin `c` with the meaning: count + c <= 0,
+    i.e. count <= -c (e.g. for a slice of length L: c = -L; after skip(n): also c = n - L)."""
+    S = ctx.S
+    if not isinstance(it, Iter):
+        return []
+    k = it.kind
+    if k == "slice":
+        v = ctx.deref(it.a, "icb") if isinstance(it.a, Ref) else None
+        if isinstance(v, (Seq, Arr)):
+            return [S.term(len_sym(ctx, v)).scale(-1)]
+        return []
+    if k in ("copied", "enumerate", "rev", "map", "filter", "filter_map"):
+        return iter_count_bounds(ctx, it.a)
+    if k == "skip":
+        inner = iter_count_bounds(ctx, it.a)
+        n = S.term(it.n) if isinstance(it.n, int) else None
+        return inner + ([c.add(n) for c in inner] if n is not None else [])
+    if k == "take":
+        inner = iter_count_bounds(ctx, it.a)
+        return inner + ([S.term(it.n).scale(-1)] if isinstance(it.n, int) else [])
+    if k == "zip":
+        return iter_count_bounds(ctx, it.a) + iter_count_bounds(ctx, it.b)
+    return []
 
 
 @M.reg_re(r"as core::iter::traits::iterator::Iterator>::find_map$|^core::iter::traits::iterator::Iterator::find_map$")
